@@ -32,7 +32,11 @@ def run(ctx):
     ctx.assumptions = ASSUME
     facts = common.regen_facts(ctx)
     ctx.coverage["generated_facts"] = facts_summary(facts)
-    ok, out = common.lean_obligations(ctx, MODULE, ["TriompheModel.Props.Gates", "TriompheModel.WM.Consume", "TriompheModel.WM.RelSeq"])
+    ok, out = common.lean_obligations(ctx, MODULE, ["TriompheModel.Props.Gates", "TriompheModel.WM.Consume", "TriompheModel.WM.RelSeq",
+                                                    "TriompheModel.WM.FinExec", "TriompheModel.WM.FinExamples", "TriompheModel.WM.Search"])
+    # model-side search at the orderings of this tree: the template family must contain no racy execution
+    nw, wtxt = common.wm_search(ctx, facts)
+    ctx.oblige("model-search:no-racy-template-execution", nw == 0, wtxt[:300])
 
     # supporting validation + failing-input search: Miri litmus programs on the working tree
     progs = QUICK if not ctx.thorough() else (miri.programs_for("C02") + ["try_unwrap_vs_drop", "racing_try_unwrap_2t", "unwrap_or_clone_vs_drop", "try_unique_vs_drop"])
@@ -59,6 +63,9 @@ def run(ctx):
         body = ["Lean obligations that no longer check (Props/C02.lean at the regenerated facts):"]
         body += ["  " + n for n in ctx.failed_obligations()]
         body.append("generated facts: " + json.dumps(ctx.coverage["generated_facts"]))
+        body.append("")
+        nw, wtxt = common.wm_search(ctx, facts)
+        body.append(wtxt)
         body.append("")
         if not bad and not ctx.thorough():
             # widen the search before giving up
